@@ -88,10 +88,10 @@ static int extra_events(int epfd, struct epoll_event *events, int max) {
   if (!ctx || epfd != ctx->epfd || max < 1)
     return 0;
   if (!accepted && ep) {
+    /* level triggered: offered until the library has accepted the connection (a build with real locking polls twice) */
     events[n].events = EPOLLIN;
     events[n].data.ptr = &ep->sock;
     n++;
-    accepted = 1;
     return n;
   }
   if (sess && !closed && chunk_open && (sess->sock.flags & COAP_SOCKET_WANT_READ)) {
@@ -127,6 +127,7 @@ static void h_ping(coap_session_t *s, const coap_pdu_t *rcv, const coap_mid_t mi
 
 static int h_event(coap_session_t *s, const coap_event_t ev) {
   if (ev == COAP_EVENT_SERVER_SESSION_NEW) {
+    accepted = 1;
     sess = s;
     coap_session_reference(s);
   }
